@@ -124,6 +124,10 @@ func vsReadInto(self *Metadata, name MetadataFileName, target interface{}) error
 		for i := 0; i < vsChunks; i++ {
 			defs.ChunkDefs = append(defs.ChunkDefs, &ChunkDef{})
 		}
+		if vsDefsNullChunk {
+			// what encoding/json makes of {"chunks": [..., null]}
+			defs.ChunkDefs = append(defs.ChunkDefs, nil)
+		}
 		*sd = defs
 	}
 	return nil
@@ -2408,4 +2412,93 @@ func H_C06_splitRetry(n1, n2 int) {
 		verifAssert(n == n2, "C03: no chunk which the completed split did not define is submitted")
 	}
 	vsDiskMode, vsDisk = false, nil
+}
+
+// H_C06_clusterRetry(full): cluster mode.  One chunk of a stage failed while a
+// sibling chunk was still waiting for a --maxjobs slot (_queued_locally: mrp
+// itself holds it, nothing is in the cluster's queue) and a third had
+// completed.  mrp retries in-process: re-attach (RestartRunningNodes), Reset,
+// LoadMetadata - the waiter goroutines of the old pipestance object are gone.
+//
+//	C06: after the retry no job is left in a state which nobody will ever
+//	     advance: the chunk which was only queued inside the old mrp is ready to
+//	     be submitted again; the failed chunk is reset; the completed one kept.
+func H_C06_clusterRetry(full int) {
+	disableUniquification = false
+	vsGlobFromCache = true
+	top := vsTop()
+	top.rt.Config.JobMode = "sge"
+	top.rt.Config.FullStageReset = full != 0
+	p := vsPipelineNode(top, nil, "ID.ps.P", "P")
+	p.parent = top
+	node, f := vsStageNode(top, "S", true)
+	node.parent = p
+	p.subnodes["S"] = node
+	f.split_metadata.contents[CompleteFile] = struct{}{}
+	f.split_metadata.contents[StageDefsFile] = struct{}{}
+	f.split_metadata.contents[JobInfoFile] = struct{}{}
+	var chunks [3]*Chunk
+	for i := range chunks {
+		c := &Chunk{fork: f, index: i, chunkDef: &ChunkDef{}}
+		c.fqname = f.fqname + ".chnk" + string(rune('0'+i))
+		c.metadata = newMetadataWithJournalPath(c.fqname, "P.S.fork0.chnk"+string(rune('0'+i)), f.path+"/chnk"+string(rune('0'+i)), top.journalPath)
+		f.chunks = append(f.chunks, c)
+		chunks[i] = c
+	}
+	// chunk 0 failed, chunk 1 waits for a job slot inside mrp, chunk 2 is done
+	chunks[0].metadata.contents[JobInfoFile] = struct{}{}
+	chunks[0].metadata.contents[LogFile] = struct{}{}
+	chunks[0].metadata.contents[Errors] = struct{}{}
+	chunks[1].metadata.contents[JobInfoFile] = struct{}{}
+	chunks[1].metadata.contents[QueuedLocally] = struct{}{}
+	chunks[2].metadata.contents[JobInfoFile] = struct{}{}
+	chunks[2].metadata.contents[LogFile] = struct{}{}
+	chunks[2].metadata.contents[CompleteFile] = struct{}{}
+	vsPidZero, vsPidDead, vsJobInfoErr = false, true, false
+	ps := &Pipestance{node: p, metadata: NewMetadata("ID.ps", "/ps")}
+	ps.metadata.contents[Lock] = struct{}{}
+	top.node.frontierNodes.nodes[node.GetFQName()] = node
+	p.state = Running
+	// pipestanceHolder.restart: ReattachToPipestance (which ends with
+	// RestartRunningNodes), Reset, LoadMetadata
+	err := ps.RestartRunningNodes("sge", context.Background())
+	verifAssert(err == nil, "re-attaching succeeds when the file system does")
+	err = ps.Reset()
+	verifAssert(err == nil, "the reset succeeds when the file system does")
+	ps.LoadMetadata(context.Background())
+	verifCover("cluster-mode stage retried in-process")
+	verifAssert(node.getState() != Failed, "C06: once the fault is removed a retry clears the failure")
+	verifAssert(!vsHas(chunks[1].metadata, QueuedLocally), "C06: a job which was only queued inside the old mrp (waiting for a job slot) is not left queued for ever by a retry: it is reset, so that it is submitted again")
+	verifAssert(!vsHas(chunks[0].metadata, Errors), "C06: the failed chunk is reset")
+	if full == 0 {
+		verifAssert(vsHas(chunks[2].metadata, CompleteFile), "C06: work that succeeded is not redone by a retry")
+	}
+}
+
+var vsDefsNullChunk bool
+
+// H_C06_nullChunkDef(k): the split job of a stage completed and its
+// _stage_defs lists k + 1 chunks one of which is the JSON value null
+// ({"chunks": [null]} decodes to a nil chunk definition).
+//
+//	C06: a bad _stage_defs fails the stage with an error naming it; mrp does
+//	     not crash, and no chunk job is started.
+func H_C06_nullChunkDef(k int) {
+	disableUniquification = false
+	top := vsTop()
+	top.rt.Config.JobMode = localMode
+	_, f := vsStageNode(top, "S", true)
+	for _, name := range []MetadataFileName{CompleteFile, StageDefsFile, JobInfoFile, LogFile} {
+		f.split_metadata.contents[name] = struct{}{}
+	}
+	vsChunks = k
+	vsDefsErr, vsDefsNullChunk = false, true
+	vsExec = nil
+	vsDisabled, vsResolveErr = false, false
+	f.step()
+	vsDefsNullChunk = false
+	verifCover("stage stepped with a null chunk definition")
+	verifAssert(f.getState() == Failed, "C06: a _stage_defs with a null chunk fails the stage")
+	verifAssert(vsHas(f.split_metadata, Errors) || vsHas(f.metadata, Errors), "C06: the failure is recorded as an error of the stage")
+	verifAssert(len(vsExec) == 0, "C06: no chunk job is started from a bad _stage_defs")
 }
